@@ -90,6 +90,15 @@ func source(d []byte) string {
 var shatteredDir string
 
 func attackPair() ([]byte, []byte, bool) {
+	// the two SHAttered prefixes, handed over by the runner (literals of Spec/ShaAttack.v) ...
+	if v := strings.SplitN(os.Getenv("C05_SHATTERED"), ":", 2); len(v) == 2 {
+		a, e1 := hex.DecodeString(v[0])
+		b, e2 := hex.DecodeString(v[1])
+		if e1 == nil && e2 == nil && len(a) == 320 && len(b) == 320 {
+			return a, b, true
+		}
+	}
+	// ... or read from the sha1cd test data
 	a, e1 := os.ReadFile(filepath.Join(shatteredDir, "shattered-1.pdf"))
 	b, e2 := os.ReadFile(filepath.Join(shatteredDir, "shattered-2.pdf"))
 	if e1 != nil || e2 != nil || len(a) < 320 || len(b) < 320 {
